@@ -274,34 +274,6 @@ theorem selRangeMesh_ok (m : Mesh) (hm : m.Inv) (hs : m.subs = []) (a : Nat) (ha
   simp only
   exact ⟨_, setSubs_nil _ rfl, rfl⟩
 
-/-- the upper index of a box inside the region is a valid index, not below the lower one -/
-theorem upperIdx_range (m : Mesh) (hm : m.Inv) (item : Region) (hbox : BoxIn m item) (a : Nat) (ha : a < m.ndim) :
-    0 ≤ upperIdx m a (item.hi a) ∧ upperIdx m a (item.hi a) < (m.nAt a : Int) ∧
-    ((m.indexAx a (item.lo a) : Nat) : Int) ≤ upperIdx m a (item.hi a) := by
-  have hc := inv_cell_pos hm ha
-  have hn := inv_n_pos hm ha
-  obtain ⟨b1, b2, b3⟩ := hbox.2 a ha
-  obtain ⟨u1, u2⟩ := upperIdx_bounds m a (item.hi a) hc
-  obtain ⟨c1, _⟩ := index_contains m a (item.lo a) hn (inv_lo_lt_hi hm ha) b1 (by linarith)
-  have hhi := hi_eq m a hn
-  have r1 : (-1 : Rat) < (upperIdx m a (item.hi a) : Rat) := by
-    by_contra hcon; rw [not_lt] at hcon
-    have : ((upperIdx m a (item.hi a) : Rat) + 1) * m.cellAt a ≤ 0 :=
-      mul_nonpos_of_nonpos_of_nonneg (by linarith) hc.le
-    linarith
-  have r2 : (upperIdx m a (item.hi a) : Rat) < (m.nAt a : Rat) := by
-    by_contra hcon; rw [not_lt] at hcon
-    have := mul_le_mul_of_nonneg_right hcon hc.le
-    linarith
-  have r3 : (m.indexAx a (item.lo a) : Rat) < (upperIdx m a (item.hi a) : Rat) + 1 := by
-    by_contra hcon; rw [not_lt] at hcon
-    have := mul_le_mul_of_nonneg_right hcon hc.le
-    linarith
-  have i1 : (-1 : Int) < upperIdx m a (item.hi a) := by exact_mod_cast r1
-  have i2 : upperIdx m a (item.hi a) < (m.nAt a : Int) := by exact_mod_cast r2
-  have i3 : ((m.indexAx a (item.lo a) : Nat) : Int) < upperIdx m a (item.hi a) + 1 := by exact_mod_cast r3
-  omega
-
 theorem getRegion_ok (m : Mesh) (hm : m.Inv) (item : Region) (hbox : BoxIn m item)
     (hpm : item.pmax.length = m.ndim) :
     ∃ g, getRegion m item = .ok g ∧ g.n = tab m.ndim fun a => blockHi m item a - blockLo m item a + 1 := by
@@ -330,6 +302,8 @@ theorem getRegion_ok (m : Mesh) (hm : m.Inv) (item : Region) (hbox : BoxIn m ite
       have := indexAx_lt m a (item.pmin.getD a 0) (inv_n_pos hm ha)
       omega)]
   simp only
+  rw [show (tab m.ndim fun a => upperIdxC m a (item.hi a)) = tab m.ndim fun a => upperIdx m a (item.hi a) from
+    tab_congr _ _ _ (fun a ha => upperIdxC_eq m hm item hbox a ha)]
   rw [index2point_eq m _ (by rw [tab_length]) (by
       intro a ha
       rw [getD_tab _ _ _ _ ha]
